@@ -616,6 +616,8 @@ class ExprMixin:
         for c in ast.walk(fx.func.node):
             if isinstance(c, ast.Call) and any(a is n for a in c.args) and isinstance(c.func, ast.Name):
                 consumer = c.func.id
+            elif isinstance(c, ast.Call) and any(a is n for a in c.args) and isinstance(c.func, ast.Attribute):
+                consumer = "." + c.func.attr
         seen_iters, seen_ifs = [], []
 
         def gens(i, s):
